@@ -7,6 +7,7 @@ fail=0
 for d in seeded/*/; do
   id=$(basename $d); prop=${id%%-*}
   if grep -q not_judged_by_design $d/meta.json; then echo "SKIP   $id (not judged by design, see meta.json)"; continue; fi
+  if grep -q open_gap $d/meta.json; then echo "OPEN   $id (known open gap, see meta.json)"; continue; fi
   other=$(python3 -c "import json,sys; print(json.load(open('$d/meta.json')).get('check_property',''))" 2>/dev/null)
   if [ -n "$other" ]; then prop=$other; fi
   out=$(tools/try_mutant.sh $d/patch.diff $prop $budget 2>&1)
